@@ -373,6 +373,14 @@ def run(tier, rep):
             except ValueError:
                 rep.violation('record:%s:estimate-shape' % cls, dict(case=name, value_shape=list(err.shape), estimate_shape=list(np.shape(est))), '%s: error_estimate of shape %s cannot be matched with the value of shape %s' % (name, np.shape(est), err.shape))
                 continue
+        if os.environ.get('VERIF_SURVEY'):
+            tight = 1e-11 * sc
+            msk = err > tight
+            if msk.any():
+                print('SURVEYM %s %s %.3g' % (cls, method, float((err[msk] / np.maximum(e[msk], 1e-300)).max())))
+        # honesty proper: beyond a rounding-level floor the ESTIMATE has to cover the error (the accuracy envelopes of C03/C04 play no
+        # part here; worst error/estimate observed beyond this floor: 0.71)
+        floor = min(floor, 1e-10 * sc)
         bad = err > K_HONEST * e + floor
         if bad.any():
             i = int(np.argmax(bad))
